@@ -41,7 +41,7 @@ type Config struct {
 	Packages  []string            `json:"packages"`             // go/packages patterns, relative to repo
 	MainFiles []string            `json:"main_files,omitempty"` // globs (base names) of files of the root package to instrument; empty = all
 	SimOS     []string            `json:"simos_packages,omitempty"`
-	StmtYield []string            `json:"stmt_yield_files,omitempty"` // repo-relative files that get statement-level yields in goroutine bodies
+	StmtYield []string            `json:"stmt_yield_files,omitempty"`     // repo-relative files that get statement-level yields in goroutine bodies
 	StmtAll   []string            `json:"stmt_yield_all_files,omitempty"` // repo-relative files that get statement-level yields in every function
 	Knobs     []KnobSpec          `json:"knobs,omitempty"`
 	Overrides map[string]string   `json:"overrides,omitempty"`
@@ -58,11 +58,13 @@ type Report struct {
 }
 
 var selMap = map[string]map[string]string{
-	"sync":                        {"Mutex": "simsync", "RWMutex": "simsync", "WaitGroup": "simsync", "Once": "simsync", "Pool": "simsync"},
-	"sync/atomic":                 {"Bool": "simatomic", "Int32": "simatomic", "Int64": "simatomic", "Uint32": "simatomic", "Uint64": "simatomic"},
-	"time":                        {"Now": "simtime", "Since": "simtime", "Until": "simtime", "Sleep": "simtime", "After": "simtime", "Tick": "simtime", "NewTimer": "simtime", "NewTicker": "simtime", "AfterFunc": "simtime", "Timer": "simtime", "Ticker": "simtime"},
-	"context":                     {"WithCancel": "simctx", "WithTimeout": "simctx", "WithDeadline": "simctx"},
+	"sync":                       {"Mutex": "simsync", "RWMutex": "simsync", "WaitGroup": "simsync", "Once": "simsync", "Pool": "simsync"},
+	"sync/atomic":                {"Bool": "simatomic", "Int32": "simatomic", "Int64": "simatomic", "Uint32": "simatomic", "Uint64": "simatomic"},
+	"time":                       {"Now": "simtime", "Since": "simtime", "Until": "simtime", "Sleep": "simtime", "After": "simtime", "Tick": "simtime", "NewTimer": "simtime", "NewTicker": "simtime", "AfterFunc": "simtime", "Timer": "simtime", "Ticker": "simtime"},
+	"context":                    {"WithCancel": "simctx", "WithTimeout": "simctx", "WithDeadline": "simctx"},
 	"golang.org/x/sync/errgroup": {"Group": "simerrgroup", "WithContext": "simerrgroup"},
+	// not used by the pinned tree; a change that introduces it must not park the baton on a real WaitGroup
+	"golang.org/x/sync/singleflight": {"Group": "simsingleflight", "Result": "simsingleflight"},
 }
 
 // selectors of those packages that read the clock / block and are NOT modelled: reported as gaps
